@@ -125,6 +125,8 @@ pub struct SDriver<'a, 'c> {
     pub stuck: bool,
     /// Output is only ever drained partially (never completely) while reading: the consumed prefix keeps growing.
     pub partial_drain_only: bool,
+    /// An earlier copy of the parser, brought up to date with `clone_from` before the driver continues on it.
+    pub spare: Option<stream::Parser<'c>>,
 }
 
 impl<'a, 'c> SDriver<'a, 'c> {
@@ -136,7 +138,7 @@ impl<'a, 'c> SDriver<'a, 'c> {
             taken: vec![0; streams.len()],
             out_drained: Vec::new(),
             all_replies: model::concat_replies(&m.replies),
-            style, failed: None, saw_end: false, c18: false, allow_stuck: false, stuck: false, partial_drain_only: false,
+            style, failed: None, saw_end: false, c18: false, allow_stuck: false, stuck: false, partial_drain_only: false, spare: None,
         }
     }
 
@@ -184,6 +186,14 @@ impl<'a, 'c> SDriver<'a, 'c> {
 
     /// feed k bytes and parse, with dest Some(len) or None. Returns (stream bytes, stream_end, progress).
     pub fn feed_parse(&mut self, cx: &mut Ctx, dest_len: Option<usize>, oracle: &str) -> Result<(usize, bool, bool), Violation> {
+        // the parser is Clone: a caller may at any moment continue on a copy (or on an older copy brought up to
+        // date with clone_from); a copy is the same parser
+        match cx.ch.weighted(&[60, 1, 1, 1]) {
+            1 => { let c = self.p.clone(); self.p = c; cx.probe("continued_on_clone"); }
+            2 => { self.spare = Some(self.p.clone()); }
+            3 => { if let Some(mut sp) = self.spare.take() { sp.clone_from(&self.p); self.p = sp; cx.probe("continued_on_clone_from"); } }
+            _ => {}
+        }
         let space = self.p.input_buffer().len();
         let remaining = self.cap.saturating_sub(self.pos);
         let k = chunk(cx, self.style, space, remaining);
@@ -577,7 +587,7 @@ fn cx_dest(cx: &mut Ctx) -> usize {
 }
 
 pub const C02_PROBES: &[&str] = &[
-    "handoff_via_into_request", "configured_size_below_24",
+    "continued_on_clone", "continued_on_clone_from", "handoff_via_into_request", "configured_size_below_24",
     "reply_flood", "getvalues_over_256_pairs",
     "buffer_over_64k",
     "conversion_probe_ok", "conversion_probe_interrupted",
@@ -586,14 +596,14 @@ pub const C02_PROBES: &[&str] = &[
     "noise_getvalues", "noise_unknown_type", "noise_foreign_begin", "noise_stale_params", "noise_huge_record", "noise_foreign_id",
 ];
 pub const C18H_PROBES: &[&str] = &[
-    "handoff_via_into_request", "configured_size_below_24",
+    "continued_on_clone", "continued_on_clone_from", "handoff_via_into_request", "configured_size_below_24",
     "buffer_over_64k",
     "conversion_probe_ok", "conversion_probe_interrupted",
     "noncompliant_order", "early_advance", "rejected_selection", "rejected_selection_mid_record", "reselect_current_mid_record", "held_back_header_seen",
     "stopped_mid_stream", "into_input_checked", "dest_len_zero", "compress_with_stream_data",
 ];
 pub const C05_PROBES: &[&str] = &[
-    "handoff_via_into_request", "configured_size_below_24",
+    "continued_on_clone", "continued_on_clone_from", "handoff_via_into_request", "configured_size_below_24",
     "conversion_probe_ok", "conversion_probe_interrupted",
     "chain_requests_2plus", "lookahead_at_handoff", "handoff_full_buffer", "fed_after_done", "converted_with_stream_selected", "converted_with_unconsumed_stream_data", "stopped_mid_stream", "held_back_header_seen",
     "exact_fill_read", "parse0_on_full_buffer",
